@@ -36,6 +36,10 @@ def handleHistory (impl : Json) : R (List (String × Json)) := do
   match impl.getObjVal? "error" with
   | .ok e => return [("model", Json.null), ("oracle", Json.mkObj []), ("info", Json.mkObj [("skipped", e)])]
   | .error _ => pure ()
+  match impl.getObjVal? "panic" with
+  | .ok e => return [("model", Json.null), ("oracle", Json.mkObj [("operators_do_not_panic", Json.bool false)]),
+                     ("info", Json.mkObj [("panic", e)])]
+  | .error _ => pure ()
   let steps ← arrF impl "history"
   let mut okCaches := true
   let mut okStale := true
